@@ -10,6 +10,23 @@ Generic lock-step trace runner.  A trace file is a sequence of blocks
 For every op the model is stepped, outcome and observation are compared field by
 field, and the property monitors are evaluated on the *implementation's*
 observations.  Output: one line per finding plus one summary line per trace.
+
+Re-synchronisation.  After a value disagreement (or an `impl_laxer` outcome: the real
+code accepted a call the model rejects) the model state no longer is the
+implementation's state.  Every disagreement found at that op is reported (one DISAGREE
+line per differing field); then, if the scenario has a `resync` function, the model
+state is rebuilt from the implementation's observation of that op and the comparison
+goes on: every later op is compared from the implementation's real pre-state, so a
+trace can report several disagreements (bounded: `maxPerKey` lines per field and op
+kind).  Without `resync` (or when it gives up) only the monitors keep running on the
+rest of the trace, as before.  Ops without an observation (queries, probes) do not
+change the implementation's state: with `resync` a disagreement there never stops the
+comparison.  The monitors never see the model and are unaffected.  Summary line:
+`resyncs=` rebuilt states, `inexact=` rebuilt states that still render differently from
+the observation (the implementation is in a state the model cannot represent),
+`suppressed=` DISAGREE lines beyond the bound.  Header key `forceresync=1` (self-test,
+`tools/resync_selftest.sh`): rebuild after *every* observation; `noresync=1`: never rebuild
+(the behaviour before re-synchronisation existed, for A/B comparisons).
 -/
 namespace CwPlus.Driver
 open CwPlus Wire
@@ -64,12 +81,32 @@ structure Scen (σ μ : Type) where
   /-- Property predicates evaluated on implementation observations:
   `monitor μ prevObs op implOk implOut curObs`. -/
   monitor : μ → Args → List String → Bool → Args → Args → μ × List Finding
+  /-- Re-synchronisation: rebuild the model state from this complete implementation observation, keeping
+  from the old model state only what the observation does not show (block, pool, …).  `none` (the field or
+  the result) = this scenario / this observation cannot be resynchronised: after the first value
+  disagreement only the monitors keep running, as before. -/
+  resync : Option (σ → Args → Option σ) := none
 
 /-- Replace blanks so a value can be carried in a `key=value` token. -/
 def sanitize (s : String) : String := s.map (fun c => if c == ' ' then '_' else c)
 
 def truncate (s : String) (n : Nat := 300) : String :=
   if s.length ≤ n then s else (s.take n).toString ++ "…"
+
+/-- The op kind as `check` computes it (`op_kind`): the message kind of an `exec`, `query.<kind>`,
+`ibc.<kind>`, else the first word. -/
+def opKind (toks : List String) : String :=
+  match toks with
+  | "exec" :: _ :: k :: _ => k
+  | "query" :: k :: _ => "query." ++ k
+  | "ibc" :: k :: _ => "ibc." ++ k
+  | t :: _ => t
+  | [] => ""
+
+/-- At most this many DISAGREE lines per trace for one (field, op kind): with re-synchronisation a trace
+can disagree many times on the same thing; `check` de-duplicates by (field, direction, op kind) anyway.
+Lines beyond the cap are counted in `suppressed=` of the summary line. -/
+def maxPerKey : Nat := 5
 
 structure RunState (σ μ : Type) where
   model : σ
@@ -82,42 +119,77 @@ structure RunState (σ μ : Type) where
   compared : Nat := 0
   /-- monitor signatures already reported in this trace (each is reported once) -/
   seen : List String := []
+  /-- successful re-synchronisations of the model from the implementation's observation -/
+  resyncs : Nat := 0
+  /-- re-synchronisations after which the model still renders differently from the observation it was
+  rebuilt from (the implementation is in a state the model cannot represent) -/
+  inexact : Nat := 0
+  /-- DISAGREE lines printed per (field, op kind) -/
+  dcount : List (String × Nat) := []
+  suppressed : Nat := 0
+
+/-- Print a value / `impl_laxer` DISAGREE line, bounded per (field, op kind). -/
+def RunState.report {σ μ : Type} (st : RunState σ μ) (key line : String) : RunState σ μ :=
+  let n := ((st.dcount.find? (·.1 == key)).map (·.2)).getD 0
+  if n < maxPerKey then
+    { st with out := line :: st.out, dcount := (key, n + 1) :: st.dcount.filter (·.1 != key) }
+  else { st with suppressed := st.suppressed + 1 }
 
 def runTrace {σ μ : Type} (sc : Scen σ μ) (header : String) (lines : List String) : List String :=
   let hargs := args (tokens header)
   let tid := hargs.str "trace"
   let recs := groupOps lines
+  -- header `noresync=1` (A/B comparison by hand): behave as a scenario without `resync`
+  let resync := if hargs.str "noresync" == "1" then none else sc.resync
+  let canResync := resync.isSome
+  -- self-test of `resync` (header `forceresync=1`, added to a trace file by hand): the model is rebuilt
+  -- from every observation, also when nothing disagrees; an exact `resync` changes no verdict
+  let force := hargs.str "forceresync" == "1"
   let st0 : RunState σ μ := { model := sc.init hargs, mon := sc.monInit hargs, prevObs := [] }
   let st := recs.foldl (fun (st : RunState σ μ) (r : OpRec) =>
     let toks := tokens r.op
     let k := st.step
+    let okind := opKind toks
     let implOut : Args := match r.outcome with | some o => args (tokens o) | none => []
     let implOk : Bool := match r.outcome with | some o => (tokens o).head? == some "ok" | none => true
-    -- model
-    let (st, tag) :=
-      if st.diverged then (st, "")
+    -- An op without an observation (query, probe, stateless evaluation) leaves the implementation's state
+    -- as it was: when the scenario can resynchronise, a disagreement on such an op does not stop the
+    -- comparison (the model state is still the one tied to the last observation).
+    let stop : Bool := !(canResync && r.obs.isNone)
+    -- model; `cmpObs` = the model ran this op, its post-state is comparable with the observation
+    let (st, tag, cmpObs) :=
+      if st.diverged then
+        -- block changes (ops without an outcome line) still reach a model that will be resynchronised
+        if canResync && r.outcome.isNone then
+          let (s', res) := sc.step st.model toks
+          ({ st with model := s' }, res.tag, false)
+        else (st, "", false)
       else
         let (s', res) := sc.step st.model toks
         match r.outcome with
-        | none => ({ st with model := s' }, res.tag)
+        | none => ({ st with model := s' }, res.tag, true)
         | some _ =>
           match res.ok with
-          | none => ({ st with model := s' }, res.tag)     -- outcome not modelled
+          | none => ({ st with model := s' }, res.tag, true)     -- outcome not modelled
           | some mok =>
             if mok && implOk then
               -- both accepted: compare outcome arguments
-              match (res.out.find? (fun p => implOut.str p.1 != p.2)).map (fun p => (p.1, p.2, implOut.str p.1)) with
-              | some (f, m, i) =>
-                ({ st with model := s', diverged := true,
-                           out := s!"T {tid} DISAGREE step={k} field=out.{f} dir=value model={truncate (sanitize m)} impl={truncate (sanitize i)} op={r.op}" :: st.out }, res.tag)
-              | none => ({ st with model := s', compared := st.compared + 1 }, res.tag)
-            else if !mok && !implOk then ({ st with compared := st.compared + 1 }, res.tag)
+              match res.out.filter (fun p => implOut.str p.1 != p.2) with
+              | [] => ({ st with model := s', compared := st.compared + 1 }, res.tag, true)
+              | bad =>
+                let st := bad.foldl (fun (st : RunState σ μ) p =>
+                  st.report s!"out.{p.1}/{okind}"
+                    s!"T {tid} DISAGREE step={k} field=out.{p.1} dir=value model={truncate (sanitize p.2)} impl={truncate (sanitize (implOut.str p.1))} op={r.op}") st
+                -- the post-states are still compared below; then the model is resynchronised (or stops)
+                ({ st with model := s', diverged := stop }, res.tag, true)
+            else if !mok && !implOk then ({ st with compared := st.compared + 1 }, res.tag, true)
             else if mok && !implOk then
               -- implementation is stricter: follow it (model state stays), report
-              ({ st with out := s!"T {tid} DISAGREE step={k} field=outcome dir=impl_stricter model=ok impl=err tag={res.tag} op={r.op}" :: st.out }, res.tag)
+              ({ st with out := s!"T {tid} DISAGREE step={k} field=outcome dir=impl_stricter model=ok impl=err tag={res.tag} op={r.op}" :: st.out }, res.tag, true)
             else
-              ({ st with diverged := true,
-                         out := s!"T {tid} DISAGREE step={k} field=outcome dir=impl_laxer model=err impl=ok tag={res.tag} op={r.op}" :: st.out }, res.tag)
+              let st := st.report s!"outcome.laxer/{okind}"
+                s!"T {tid} DISAGREE step={k} field=outcome dir=impl_laxer model=err impl=ok tag={res.tag} op={r.op}"
+              ({ st with diverged := stop }, res.tag, false)
     -- observation
     let st :=
       match r.obs with
@@ -148,13 +220,26 @@ def runTrace {σ μ : Type} (sc : Scen σ μ) (header : String) (lines : List St
             { st with seen := "C20/paging-inconsistent" :: st.seen,
                       out := s!"T {tid} MONITOR prop=C20 step={k} sig=C20/paging-inconsistent detail={sanitize pagediff} op={r.op}" :: st.out }
           else st
+        -- every differing field is reported (a disagreement on one field must not hide another's)
         let st :=
-          if st.diverged then st
+          if !cmpObs then st
           else
-            match firstDiff (sc.obs st.model) implObs with
-            | some (f, m, i) =>
-              { st with diverged := true,
-                        out := s!"T {tid} DISAGREE step={k} field=obs.{f} dir=value model={truncate (sanitize m)} impl={truncate (sanitize i)} op={r.op}" :: st.out }
+            match allDiffs (sc.obs st.model) implObs with
+            | [] => st
+            | ds =>
+              let st := ds.foldl (fun (st : RunState σ μ) (d : String × String × String) =>
+                st.report s!"obs.{d.1}/{okind}"
+                  s!"T {tid} DISAGREE step={k} field=obs.{d.1} dir=value model={truncate (sanitize d.2.1)} impl={truncate (sanitize d.2.2)} op={r.op}") st
+              { st with diverged := true }
+        -- the model can no longer follow: rebuild it from what the implementation shows, so that the
+        -- next op is compared again, from the implementation's real pre-state
+        let st :=
+          if !st.diverged && !force then st
+          else
+            match resync.bind (fun f => f st.model implObs) with
+            | some m' =>
+              { st with model := m', diverged := false, resyncs := st.resyncs + 1,
+                        inexact := st.inexact + (if (allDiffs (sc.obs m') implObs).isEmpty then 0 else 1) }
             | none => st
         let (mon', fs) := sc.monitor st.mon st.prevObs toks implOk implOut implObs
         let fs := dedupFindings (fs.filter (fun (f : Finding) => !st.seen.contains f.sig))
@@ -163,7 +248,7 @@ def runTrace {σ μ : Type} (sc : Scen σ μ) (header : String) (lines : List St
         { st with mon := mon', prevObs := implObs, out := outs.reverse ++ st.out }
     { st with step := k + 1, tags := if tag == "" then st.tags else tag :: st.tags }) st0
   let status := if st.out.isEmpty then "OK" else "FINDINGS"
-  st.out.reverse ++ [s!"T {tid} {status} steps={st.step} compared={st.compared} tags={joinC st.tags.reverse}"]
+  st.out.reverse ++ [s!"T {tid} {status} steps={st.step} compared={st.compared} resyncs={st.resyncs} inexact={st.inexact} suppressed={st.suppressed} tags={joinC st.tags.reverse}"]
 
 /-- Split the whole input into traces at `scenario` lines. -/
 def splitTraces (lines : List String) : List (String × List String) :=
